@@ -8,6 +8,7 @@ import (
 	"time"
 
 	regexp2 "github.com/dlclark/regexp2/v2"
+	"github.com/dlclark/regexp2/v2/syntax"
 )
 
 // Res is a match result in the specification's terms.  Caps[g-1] is the ordered capture list of
@@ -134,4 +135,71 @@ func quoteRunes(s []int) string {
 		}
 	}
 	return sb.String()
+}
+
+// ---------------------------------------------------------------------------------------------
+// Cost of a case for the SPECIFICATION.  RegexSem is a plain backtracking search without any of the engine's
+// rewrites, evaluated by TLC about three orders of magnitude slower than the engine: a pattern the engine handles
+// in linear time thanks to a rewrite (loop multiplication, auto-atomic loops ...) can be exponential for it.  The
+// probe is the same pattern compiled with every rewrite gate on and scanned naively; its cost is counted in
+// interpreter steps (deterministic), with a short timeout as a backstop.
+
+var specProbeGates = []string{"no-auto-atomic", "no-ending-backtracking-elimination", "no-bumpalong", "no-prefix-factoring",
+	"no-atomic-alternation-rewrites", "no-nonboundary-atomic", "no-loop-multiplication"}
+
+type specProbe struct{ re *regexp2.Regexp }
+
+func newSpecProbe(text string, opts regexp2.RegexOptions) *specProbe {
+	for _, g := range specProbeGates {
+		syntax.VerifSetGate(g, true)
+	}
+	defer func() {
+		for _, g := range specProbeGates {
+			syntax.VerifSetGate(g, false)
+		}
+		applyGates() // gates requested through VERIF_GATES stay in force
+	}()
+	save, saveO := lastPattern, lastOptions
+	re, err := compile(text, opts)
+	lastPattern, lastOptions = save, saveO
+	if err != nil || re == nil {
+		return &specProbe{}
+	}
+	re = regexp2.VerifNaive(re)
+	re.MatchTimeout = 25 * time.Millisecond
+	return &specProbe{re}
+}
+
+// steps returns the number of interpreter steps of one search from start (a huge number on timeout)
+func (p *specProbe) steps(in []rune, start int) int {
+	if p.re == nil {
+		return 0
+	}
+	n := 0
+	regexp2.SetVerifOnStep(func(*regexp2.Runner) { n++ })
+	err := safely(func() error {
+		_, e := p.re.FindRunesMatchStartingAt(in, start)
+		return e
+	})
+	regexp2.SetVerifOnStep(nil)
+	if err != nil {
+		return 1 << 30
+	}
+	return n
+}
+
+// heavyForSpec: would evaluating the searches of this input (every start offset) be too expensive for TLC?
+const specStepBudget = 2500
+
+func (p *specProbe) heavy(in []rune, rtl bool) bool {
+	// the recorders search from every start offset, and the specification is evaluated for each of them: the cheap
+	// search from the natural start (an early alternative may succeed at once) says nothing about the others
+	total := 0
+	for st := 0; st <= len(in); st++ {
+		n := p.steps(in, st)
+		if total += n; n > specStepBudget || total > 4*specStepBudget {
+			return true
+		}
+	}
+	return false
 }
